@@ -553,6 +553,9 @@ fn apply_checked(out: &mut Out, sys: &mut Sys, op: &OpR, trail: &[String], check
                             if back.as_ref().ok() != Some(body) || back2.as_ref().ok() != Some(body) {
                                 fail(out, "registry.read_after_write", format!("wrote {} at {}, read back {}", render(body), pword(p), show_rres(&rres(back))));
                             }
+                            if o_at(&after_root, toks) != Some(body) {
+                                fail(out, "registry.write.location", format!("wrote {} at {} but the document has {:?} at the location RFC 6901 gives that pointer: {}", render(body), pword(p), o_at(&after_root, toks).map(render), render(&after_root)));
+                            }
                             if v.get("path") != Some(&json!(o_canon(toks))) {
                                 fail(out, "registry.write.path", format!("write at {} reported path {}", pword(p), render(v)));
                             }
@@ -859,6 +862,8 @@ fn domain(name: &str) -> Dom {
         "d1" => (json!({}), ["/a", "/a/b", "/a/0"], [json!(1), json!({"b":2}), json!([7])]),
         "d2" => (json!({"k":0}), ["/x~1y", "/x~1y/~0", ""], [json!({"k":1}), json!(2), json!({"x/y":{}})]),
         "d3" => (json!({"l":[5,[6]]}), ["/l/1/0", "/l/+1", "/l/2"], [json!(9), json!([8]), json!({"1":7})]),
+        "d4" => (json!({"~1":0,"/":1}), ["/~01", "/~1", "/~01/~10"], [json!(1), json!({"/0":2}), json!({"~1":{}})]),
+        "d5" => (json!({"l":[5,6]}), ["/l/++1", "/l/+01", "/l/-0"], [json!(9), json!([8]), json!({"1":7})]),
         _ => panic!("unknown domain {name}"),
     };
     let mut ops = Vec::new();
@@ -1215,7 +1220,10 @@ fn exec_conc(out: &mut Out, line: &str) {
 // ------------------------------------------------------------------------------------------
 // generators
 // ------------------------------------------------------------------------------------------
-const TOKENS: &[&str] = &["a", "b", "c", "a", "b", "", "0", "1", "01", "+1", "-", "2", "00", "+0", "x/y", "m~n", "~", "/", "é", "k k", "18446744073709551615", "18446744073709551616", "-1", "+", "1e0", "++1"];
+const TOKENS: &[&str] = &["a", "b", "c", "a", "b", "", "0", "1", "01", "+1", "-", "2", "00", "+0", "x/y", "m~n", "~", "/", "é", "k k", "18446744073709551615", "18446744073709551616", "-1", "+", "1e0", "++1",
+    // literal keys whose escaped spellings are ~01, ~00, ~10, ~11, ~0~1, a~01b, ~1~0, ~001: the order of the two
+    // unescape substitutions matters only on these
+    "~1", "~0", "/0", "/1", "~/", "a~1b", "/~", "~01", "~1", "/"];
 
 fn gen_value(r: &mut Rng, depth: u32) -> Value {
     let k = if depth == 0 { r.below(5) } else { r.below(9) };
@@ -1287,6 +1295,13 @@ impl SeqGen {
                 Some(i) => base[..i].to_string(),
                 None => base,
             }
+        } else if k < 89 && self.pool.iter().any(|p| p.contains("~1")) {
+            // the aliasing neighbour: the same pointer with one `~01` (key `~1`) spelled `~1` (key `/`) or back
+            let cands: Vec<&String> = self.pool.iter().filter(|p| p.contains("~1")).collect();
+            let base = (*r.pick(&cands)).clone();
+            let p = if base.contains("~01") { base.replacen("~01", "~1", 1) } else { base.replacen("~1", "~01", 1) };
+            self.pool.push(p.clone());
+            p
         } else if k < 93 {
             let p = gen_pointer(r, 4);
             self.pool.push(p.clone());
@@ -1418,8 +1433,8 @@ fn gen_jp(r: &mut Rng, k: &mut u64, ops: &mut Vec<String>, n: usize) {
 
 fn gen_scenario(r: &mut Rng, max_threads: u64, max_ops: u64) -> Scenario {
     // a tiny pool of related pointers so that the threads conflict
-    let t1 = (*r.pick(&["a", "b", "x/y", "0"])).to_string();
-    let t2 = (*r.pick(&["b", "c", "0", "m~n"])).to_string();
+    let t1 = (*r.pick(&["a", "b", "x/y", "0", "~1"])).to_string();
+    let t2 = (*r.pick(&["b", "c", "0", "m~n", "~1", "/"])).to_string();
     let p1 = format!("/{}", o_escape(&t1));
     let p2 = format!("{}/{}", p1, o_escape(&t2));
     let p3 = format!("{}/{}", p2, o_escape(r.pick(&["c", "0", "1"])));
@@ -1474,7 +1489,7 @@ fn main() {
     let ops: Vec<String> = if let Some(ops) = args.replay_ops() {
         ops
     } else if family == "seq" {
-        out.rule = "random op sequences (5..100 ops after reset+router) of register_value / register_function (echoing or failing callables) / merge_at / merge_root / set_root / read_value / dispatch read / dispatch with body / requests through a Router::with_registry mount (6 prefix sets; json, beve, utf8, raw, broken bodies), pointers drawn from a per-sequence pool grown by child/parent steps over tokens {a,b,c,'',0,1,01,+1,++1,-,2,00,+0,x/y,m~n,~,/,é,'k k',2^64-1,2^64,-1,+,1e0} plus root forms and malformed pointers (no slash, ~2, trailing ~); parse_json_pointer / eval_json_pointer on well-formed and lenient inputs; exhaustive enumeration of all op sequences over 3 pointers x 3 values (27 ops) in domains d1 (nesting), d2 (escapes + root), d3 (array indices). Distinct by op line; non-trivial = the operation succeeded (Ok result)".into();
+        out.rule = "random op sequences (5..100 ops after reset+router) of register_value / register_function (echoing or failing callables) / merge_at / merge_root / set_root / read_value / dispatch read / dispatch with body / requests through a Router::with_registry mount (6 prefix sets; json, beve, utf8, raw, broken bodies), pointers drawn from a per-sequence pool grown by child/parent steps over tokens {a,b,c,'',0,1,01,+1,++1,-,2,00,+0,x/y,m~n,~,/,é,'k k',2^64-1,2^64,-1,+,1e0,~1,~0,/0,/1,~/,a~1b,/~,~01 (escaped: ~01,~00,~10,~11,~0~1,a~01b,~1~0,~001)} plus root forms and malformed pointers (no slash, ~2, trailing ~); parse_json_pointer / eval_json_pointer on well-formed and lenient inputs; exhaustive enumeration of all op sequences over 3 pointers x 3 values (27 ops) in domains d1 (nesting), d2 (escapes + root), d3 (array indices), d4 (keys `~1` and `/`: pointers /~01, /~1, /~01/~10), d5 (index spellings ++1, +01, -0). Distinct by op line; non-trivial = the operation succeeded (Ok result)".into();
         let mut ops = Vec::new();
         let mut k = 0u64;
         let nseq = if thorough { 4000 } else { 400 };
@@ -1483,7 +1498,7 @@ fn main() {
         }
         gen_jp(&mut rng, &mut k, &mut ops, if thorough { 40000 } else { 4000 });
         let len = if thorough { 5 } else { 4 };
-        for (d, l) in [("d1", len), ("d2", len - 1), ("d3", len - 1)] {
+        for (d, l) in [("d1", len), ("d2", len - 1), ("d3", len - 1), ("d4", len - 1), ("d5", len - 1)] {
             ops.push(format!("enum {} {} {}", k, d, l));
             k += 1;
         }
